@@ -12,11 +12,14 @@ What `run_sim` does not decide itself is a hypothesis, stated where it is used: 
 conditions and the rule clock in `Lemmas/Time.lean` / `Lemmas/Sched.lean`, checked by the harness on every observed call,
 and `contract_needed` shows that `run_sim` really relies on it.
 
-Not covered here (oracle only, `harness/props/c16.py`): finiteness of the numbers, one column per element.
+One column per element: section 6 (on the C14 registry invariant).  Not covered here (oracle only,
+`harness/props/c16.py`): finiteness of the numbers in the tables.
 -/
 import WntrModel.Lemmas.RunLoop
 import WntrModel.Lemmas.RunLoopShape
 import WntrModel.Gen.RunLoopShape
+import WntrModel.Lemmas.RunLoopTables
+import WntrModel.Props.C14
 
 namespace Wntr.RunLoop
 
@@ -520,6 +523,36 @@ theorem generated_completed_noop (w : W) (simTime prevTime : Int) (h0 : simTime 
   rw [generated_run_is_model]
   obtain ⟨_, b, c, _⟩ := continued_completed_noop wd cfg w simTime prevTime h0 hd
   exact ⟨c, b⟩
+
+/-! ### 6. exactly one column per model element
+
+`get_results` takes its columns from the typed name lists and `save_results` appends through the typed iterators; by the
+C14 invariant (Props/C14 `inv_history`: it holds after EVERY edit history of the repaired registry code) these list
+exactly the registry keys, each once.  So for every network that can be built, and any number `m` of reported steps:
+no KeyError, no shape error, columns = elements, `m` rows.  (What the rows contain is the world's business.) -/
+
+/-- **one_column_per_element**: for every edit history `ops` of a new model and every `m`, the node tables have the
+columns `junctions ++ tanks ++ reservoirs`, which are the node registry's keys, each exactly once, with `m` entries each;
+likewise the link tables with `pipes ++ head pumps ++ power pumps ++ valves` -/
+theorem one_column_per_element {R : Type} (ops : List Registry.Op) (rowN rowL : Nat → Registry.Name → R) (m : Nat) :
+    let s := Registry.run Registry.repaired Registry.init ops
+    ((Tables.nodeNames s).Nodup ∧ (∀ k, k ∈ Tables.nodeNames s ↔ k ∈ Registry.AL.keys s.nodes) ∧
+      ∃ d cols, Tables.savedTimes rowN (Tables.nodeNames s) (Registry.AL.keys s.nodes) m = some d ∧
+        Tables.table (Tables.nodeNames s) m d = some cols ∧ cols.map Prod.fst = Tables.nodeNames s ∧
+        ∀ c ∈ cols, c.2.length = m) ∧
+    ((Tables.linkNames s).Nodup ∧ (∀ k, k ∈ Tables.linkNames s ↔ k ∈ Registry.AL.keys s.links) ∧
+      ∃ d cols, Tables.savedTimes rowL (Tables.linkNames s) (Registry.AL.keys s.links) m = some d ∧
+        Tables.table (Tables.linkNames s) m d = some cols ∧ cols.map Prod.fst = Tables.linkNames s ∧
+        ∀ c ∈ cols, c.2.length = m) := by
+  intro s
+  have h : Registry.Inv s := Registry.inv_history ops
+  exact ⟨Tables.node_table_one_column_per_element h rowN m, Tables.link_table_one_column_per_element h rowL m⟩
+
+/-- non-vacuity: a tank, a junction, a reservoir, a pipe and a pump, three reported steps -/
+example : (Tables.savedTimes (fun j k => (j, k)) (Tables.nodeNames (Registry.run Registry.repaired Registry.init
+      [.addTank 1 none, .addJunction 2 none false, .addReservoir 3 none, .addPipe 4 1 2, .addPump 5 3 2 .power none]))
+      [1, 2, 3] 3).bind (Tables.table [2, 1, 3] 3) =
+    some [(2, [(0, 2), (1, 2), (2, 2)]), (1, [(0, 1), (1, 1), (2, 1)]), (3, [(0, 3), (1, 3), (2, 3)])] := by decide
 
 /-! ### non-vacuity: concrete runs of the trace world (fresh start, hyd = report = 2 s, duration = 6 s) -/
 
